@@ -416,6 +416,33 @@ func c16(raw json.RawMessage, resp *drv.Response) error {
 				resp.Violate("c16/reject/accepted "+sig, fmt.Sprintf("after changing %s the PLONK check still accepts", what), map[string]any{"shape": []int{s.NC, s.RW, s.QD}, "what": what})
 			}
 		}
+		// structured differences between the two sides of the final comparison: the first quotient chunk of one round is shifted by
+		// delta / Z_H(zeta), so that Z_H(zeta) t(zeta) moves by exactly delta = (+-2^k, -+1) or a unit - an equality assertion that
+		// folds the two coordinates into one word (a0 + 2^k a1) would let one of them pass
+		if rep < 2 {
+			zh := gf.ESub(gf.EExp(d.zeta, new(big.Int).Lsh(one, uint(s.DB))), gf.E1())
+			zhInv, ok := gf.EInv(zh)
+			for _, k := range []uint{0, 1, 16, 31, 32, 33, 48, 62, 63, 64} {
+				for sgn := 0; sgn < 2 && ok; sgn++ {
+					delta := gf.E{gf.Mod(pow2(int(k))), gf.Neg(one)}
+					if sgn == 1 {
+						delta = gf.E{gf.Neg(pow2(int(k))), big.NewInt(1)}
+					}
+					if k == 64 { // the units
+						delta = []gf.E{{big.NewInt(1), big.NewInt(0)}, {big.NewInt(0), big.NewInt(1)}}[sgn]
+					}
+					d2 := *d
+					d2.quotients = append([]gf.E{}, d.quotients...)
+					r := rng.Intn(s.NC)
+					d2.quotients[r*s.QD] = gf.EAdd(d2.quotients[r*s.QD], gf.EMul(delta, zhInv))
+					out2, _ := verifyReal(&d2)
+					resp.Count(fmt.Sprintf("%s/delta/%d/%d", key, k, sgn), false)
+					if out2 == "accept" {
+						resp.Violate("c16/reject/accepted-delta "+sig, fmt.Sprintf("round %d: the quotient opening moved so that Z_H(zeta) t(zeta) differs from the vanishing combination by exactly %s - the PLONK check still accepts", r, estr(delta)), map[string]any{"shape": []int{s.NC, s.RW, s.QD}, "k": k})
+					}
+				}
+			}
+		}
 		if len(resp.Samples) < 3 {
 			resp.Sample(map[string]any{"shape": sig, "outcome": out})
 		}
